@@ -15,6 +15,7 @@ import (
 	"encoding/json"
 	"fmt"
 	"math"
+	"math/big"
 	"os"
 	"path/filepath"
 	"regexp"
@@ -25,7 +26,8 @@ import (
 )
 
 type arg struct {
-	T string   `json:"t"`           // s | i | l | q
+	T string   `json:"t"`           // s | i | l | q | n (int named by its decimal text)
+	N string   `json:"n,omitempty"`
 	S string   `json:"s,omitempty"` // hex bytes
 	I int      `json:"i,omitempty"`
 	L []string `json:"l,omitempty"` // hex bytes each
@@ -119,6 +121,71 @@ var namesakes = map[string]func(x []arg) result{
 	"round":     func(x []arg) result { return rf(math.Round(float64(x[0].I) / 4)) },
 }
 
+var (
+	minInt64 = big.NewInt(math.MinInt64)
+	maxInt64 = big.NewInt(math.MaxInt64)
+)
+
+func inRange(x *big.Int) bool { return x.Cmp(minInt64) >= 0 && x.Cmp(maxInt64) <= 0 }
+
+// fold64 is "integer arithmetic over all the arguments": the LEFT fold ((a op b) op c) ... in exact integers.
+// It is defined when every operand and every intermediate of that left fold is an int64 and no divisor is
+// zero; then the int64 result is the documented value whatever order an implementation evaluates in.
+func fold64(fn string, x []arg) result {
+	vals := make([]*big.Int, 0, len(x))
+	for _, a := range x {
+		v, ok := new(big.Int).SetString(a.N, 10)
+		if !ok || !inRange(v) {
+			return result{T: "undef"}
+		}
+		vals = append(vals, v)
+	}
+	if len(vals) == 0 {
+		return result{T: "undef"}
+	}
+	acc := new(big.Int).Set(vals[0])
+	switch fn {
+	case "incr":
+		acc.Add(acc, big.NewInt(1))
+	case "decr":
+		acc.Sub(acc, big.NewInt(1))
+	default:
+		for _, v := range vals[1:] {
+			switch fn {
+			case "add":
+				acc.Add(acc, v)
+			case "sub":
+				acc.Sub(acc, v)
+			case "mul":
+				acc.Mul(acc, v)
+			case "div":
+				if v.Sign() == 0 {
+					return result{T: "undef"}
+				}
+				acc.Quo(acc, v) // truncated, like Go's /
+			case "mod":
+				if v.Sign() == 0 {
+					return result{T: "undef"}
+				}
+				acc.Rem(acc, v) // truncated, like Go's %
+			case "min":
+				if v.Cmp(acc) < 0 {
+					acc.Set(v)
+				}
+			default:
+				return result{T: "none"}
+			}
+			if !inRange(acc) {
+				return result{T: "undef"}
+			}
+		}
+	}
+	if !inRange(acc) {
+		return result{T: "undef"}
+	}
+	return result{T: "i", I: int(acc.Int64())}
+}
+
 func apply(c kase) (r result) {
 	defer func() {
 		if p := recover(); p != nil {
@@ -126,6 +193,11 @@ func apply(c kase) (r result) {
 		}
 		r.ID = c.ID
 	}()
+	for _, a := range c.Args {
+		if a.T == "n" {
+			return fold64(c.Fn, c.Args)
+		}
+	}
 	f, ok := namesakes[c.Fn]
 	if !ok {
 		return result{T: "none"}
